@@ -288,6 +288,8 @@ def build_case(seed, shard, dI, g):
             else:
                 sub = [pool[i] for i in rng.choice(len(pool), size=int(rng.integers(2, 7)), replace=False)]
             sets.append(("subset", sub))
+        if flavor == WIDE:
+            sets = [sets[0], sets[1], sets[-1]]   # wide loci are costly: no report, full report, one random subset
         c.reports[prog] = sets
     # input SNVs by position (assemble)
     c.snv_alleles = {(v["contig"], v["pos0"]): set([v["ref"]] + v["alts"]) for v in ds.snvs}
